@@ -138,7 +138,14 @@ def make_pool(rng, tier, size):
         archs = shard_archs[isa]
         generated = rng.random() < 0.5
         req = {"isa": isa, "opts": [], "text": None, "classes": []}
-        if generated:
+        if pool and rng.random() < 0.35:
+            # sibling of an earlier request: the same kernel file with another model and/or other options
+            o = rng.choice(pool)
+            isa = o["isa"]
+            req = {"isa": isa, "opts": [x for x in o["opts"] if x.startswith("--lines") or re.match(r"^\d", x)], "text": o["text"],
+                   "classes": list(o["classes"]), "kernel": o["kernel"], "sibling": True}
+            req["arch"] = rng.choice(shard_archs[isa] + ([o["arch"]] if o["arch"] else []))
+        elif generated:
             req["text"], req["classes"] = gen_kernel(rng, isa)
             req["kernel"] = None
             # the composition path lives in models without explicit memory forms; prefer those for generated kernels
@@ -436,6 +443,8 @@ def first_diff(a, b):
         x = la[i] if i < len(la) else "<eof>"
         y = lb[i] if i < len(lb) else "<eof>"
         if x != y:
+            if x.strip() == y.strip():
+                return "line %d differs in layout only: fresh %r in-sequence %r" % (i + 1, x[:60], y[:60])
             return "line %d fresh %r in-sequence %r" % (i + 1, x.strip()[:110], y.strip()[:110])
     return "(exit status only)"
 
